@@ -172,6 +172,24 @@ def run(ck: Check):
             record("compiler-ctor", {"num_bits": bits, "cpu_compiler": cc, "bad": "bits/cc"},
                    bits in (8, 16, 32, 64) and cc in ("gcc", "clang"), got)
             comp_rows.append((bits, cc, 1, got[0] == "returned"))
+    # the same guards when no model is given (the path taken by CompiledLogicNet.load) and through load() itself
+    import os
+    from harness import compiled as hc
+    lib_path = os.path.join(ck.scratch, "c19lib.so")
+    try:
+        net0 = hc.build(model, 64)
+        hc.compile_net(net0, save=lib_path)
+    except Exception as e:
+        ck.broke("correspondence", "harness", f"could not compile the probe library: {e!r}")
+        lib_path = None
+    for bits in (8, 64, 0, 7, 24, 128, -8):
+        for cc in ("gcc", "cc"):
+            ok_cfg = bits in (8, 16, 32, 64) and cc == "gcc"
+            got = outcome(lambda: CompiledLogicNet(None, num_bits=bits, cpu_compiler=cc))
+            record("compiler-ctor-no-model", {"num_bits": bits, "cpu_compiler": cc, "bad": "bits/cc"}, ok_cfg, got)
+        if lib_path and bits != 8:     # loading a 64-bit library as 8-bit is a caller error the library cannot see
+            got = outcome(lambda: CompiledLogicNet.load(lib_path, (4,), 2, bits))
+            record("compiler-load", {"num_bits": bits, "bad": "bits"}, bits in (8, 16, 32, 64), got)
     got = outcome(lambda: CompiledLogicNet(torch.nn.Sequential(torch.nn.Flatten(), GroupSum(1, device="cpu")), num_bits=8))
     record("compiler-ctor", {"bad": "no-logic-layer"}, False, got)
     comp_rows.append((8, "gcc", 0, got[0] == "returned"))
